@@ -1151,8 +1151,15 @@ func (x *Exec) applyContract(ct *Contract, fn *types.Func, sel *ast.SelectorExpr
 	x.curResults = &resultBinding{paths: resPaths, types: resTypes, st: st}
 	x.oldStack = append(x.oldStack, pre)
 	// ghost variables mentioned by the callee's postconditions are ghost results: fresh at every call
+	if ct.HasGhostOut {
+		for _, g := range ct.GhostOut {
+			if cur, ok := st.vars["ghost:"+g].(Scalar); ok {
+				st.vars["ghost:"+g] = Scalar{c.fresh(g, cur.TI.sort()), cur.TI}
+			}
+		}
+	}
 	for _, cl := range ct.Ensures {
-		if ct.KeepsGhosts {
+		if ct.KeepsGhosts || ct.HasGhostOut {
 			break
 		}
 		for _, g := range ghostNameRe.FindAllString(cl.Text, -1) {
